@@ -119,7 +119,7 @@ pub mod h_c10 {
 pub mod h_c03 {
     use super::*;
     harnesses! {
-        #[kani::unwind(9)] names_readers_6 => p_names::readers::<_, 6>;
+        #[kani::unwind(8)] names_readers_5 => p_names::readers::<_, 5>;
     }
 }
 
@@ -127,6 +127,7 @@ pub mod h_c03 {
 pub mod h_c03_t {
     use super::*;
     harnesses! {
+        #[kani::unwind(9)] names_readers_6 => p_names::readers::<_, 6>;
         #[kani::unwind(11)] names_readers_8 => p_names::readers::<_, 8>;
     }
 }
@@ -137,6 +138,7 @@ pub mod h_c15 {
     harnesses! {
         #[kani::unwind(130)] #[kani::stub(dnssector::c_abi::throw_err, crate::p_cabi::throw_err_stub)] cabi_read_an => p_cabi::read::<_, skel_gen::SkRAAaaa, 1>;
         #[kani::unwind(160)] #[kani::stub(dnssector::c_abi::throw_err, crate::p_cabi::throw_err_stub)] cabi_read_ar_opt => p_cabi::read::<_, skel_gen::SkROptmid, 3>;
+        #[kani::unwind(160)] #[kani::stub(dnssector::c_abi::throw_err, crate::p_cabi::throw_err_stub)] cabi_read_ar_optfirst => p_cabi::read::<_, skel_gen::SkROptfirst, 3>;
         #[kani::unwind(130)] #[kani::stub(dnssector::c_abi::throw_err, crate::p_cabi::throw_err_stub)] cabi_write_ttl_ip_0 => p_cabi::write::<_, skel_gen::SkRAAaaa, 0, 0>;
         #[kani::unwind(130)] #[kani::stub(dnssector::c_abi::throw_err, crate::p_cabi::throw_err_stub)] cabi_write_ttl_ip_1 => p_cabi::write::<_, skel_gen::SkRAAaaa, 1, 0>;
         #[kani::unwind(130)] #[kani::stub(dnssector::c_abi::throw_err, crate::p_cabi::throw_err_stub)] cabi_set_raw_name => p_cabi::write::<_, skel_gen::SkRAAaaa, 0, 1>;
@@ -174,6 +176,7 @@ pub mod h_c13 {
         #[kani::unwind(60)] synth_tpl_ds_hex => p_synth::template::<_, 8>;
         #[kani::unwind(60)] synth_tpl_owner_char => p_synth::template::<_, 9>;
         #[kani::unwind(80)] synth_tpl_soa_counter => p_synth::template::<_, 10>;
+        #[kani::unwind(60)] synth_tpl_txt_escape_first => p_synth::template::<_, 11>;
         #[kani::unwind(12)] synth_arbitrary_3 => p_synth::arbitrary::<_, 3>;
         #[kani::unwind(140)] synth_insert_a_an => p_synth::insert_text::<_, skel_gen::SkRAAaaa, 1, 0>;
         #[kani::unwind(140)] synth_insert_mx_ns => p_synth::insert_text::<_, skel_gen::SkRAAaaa, 2, 5>;
